@@ -28,6 +28,9 @@ fn pname(p: EvictionPolicy) -> &'static str {
     }
 }
 
+/// TTL value standing for `ttl(Duration::MAX)`: entries are kept for ever
+const TTL_FOREVER: u64 = u64::MAX / 4;
+
 #[derive(Clone)]
 struct CacheCfg {
     policy: EvictionPolicy,
@@ -46,7 +49,7 @@ impl CacheCfg {
     /// seconds and sub-second parts on both sides of the TTL's own)
     fn q(&self) -> u64 {
         match self.ttl {
-            Some(t) if t >= 1000 => t / 2,
+            Some(t) if t >= 1000 && t != TTL_FOREVER => t / 2,
             _ => Q,
         }
     }
@@ -55,7 +58,7 @@ impl CacheCfg {
     fn build(&self, inner: trv_core::inner::Shared) -> (Svc, Svc) {
         let mut b = CacheLayer::<Req, trv_core::inner::WeakKey>::builder().max_size(self.max_size).eviction_policy(self.policy).key_extractor(|r: &Req| trv_core::inner::WeakKey(r.key));
         if let Some(t) = self.ttl {
-            b = b.ttl(Duration::from_millis(t));
+            b = b.ttl(if t == TTL_FOREVER { Duration::MAX } else { Duration::from_millis(t) });
         }
         // (max_size 2: a no-op listener is registered for every event type)
         if self.max_size == 2 {
@@ -64,9 +67,9 @@ impl CacheCfg {
         let layer = b.build();
         if self.shared {
             let sl = layer.shared::<Resp>();
-            (sl.layer(GatedInner::new(inner.clone())), sl.layer(GatedInner::new(inner)))
+            (sl.clone().layer(GatedInner::new(inner.clone())), sl.layer(GatedInner::new(inner)))
         } else {
-            let a = layer.layer(GatedInner::new(inner));
+            let a = layer.clone().layer(GatedInner::new(inner));
             let b = a.clone();
             (a, b)
         }
@@ -346,7 +349,7 @@ impl SeqScenario for C10 {
                     }
                 }
                 Op::LongWait => {
-                    w.advance(cfg.ttl.unwrap_or(0) + cfg.q());
+                    w.advance(cfg.ttl.filter(|t| *t != TTL_FOREVER).unwrap_or(0) + cfg.q());
                     if last {
                         outcome = "long_wait".into();
                     }
@@ -774,12 +777,12 @@ fn grid(tier: Tier) -> Vec<CacheCfg> {
     for policy in [EvictionPolicy::Lru, EvictionPolicy::Lfu, EvictionPolicy::Fifo] {
         for max_size in [1usize, 2] {
             // TTL: none, zero (everything is expired as soon as it has any age), 20 ms, 50 ms, 1.5 s
-            for ttl in [None, Some(0), Some(20), Some(50), Some(1500)] {
+            for ttl in [None, Some(0), Some(20), Some(50), Some(1500), Some(TTL_FOREVER)] {
                 for shared in [false, true] {
                     if tier == Tier::Quick && shared && ttl == Some(50) {
                         continue;
                     }
-                    if (ttl == Some(1500) || ttl == Some(0)) && (shared || (tier == Tier::Quick && max_size == 2)) {
+                    if (ttl == Some(1500) || ttl == Some(0) || ttl == Some(TTL_FOREVER)) && (shared || (tier == Tier::Quick && max_size == 2)) {
                         continue;
                     }
                     v.push(CacheCfg { policy, max_size, ttl, shared, keys: 3 });
